@@ -16,7 +16,38 @@ BASE = {"&", "<", ">"}
 ENTITY = {"&": "&amp;", "<": "&lt;", ">": "&gt;"}
 
 
+def _keyword_case(repo, rep):
+    """The escape set of tal:content / replace / on-error is chosen by
+    comparing the captured keyword with 'text': the keyword must be captured
+    in exactly that spelling (no IGNORECASE on the statement regex), or
+    'Text x' would get the empty escape set."""
+    import re as _re
+    import re._parser as _rp
+    rc = repo.const("chameleon.tal", "SUBST_RE")
+    pat = rc.pattern if isinstance(rc.pattern, str) else \
+        rc.pattern.decode("latin-1")
+    try:
+        flags = _rp.parse(pat, rc.flags).state.flags
+    except Exception as exc:
+        raise AnalysisError("cannot parse SUBST_RE: %s" % exc)
+    rep.check(not (flags & _re.I), "R02.1", "chameleon.tal.SUBST_RE",
+              "the text/structure keyword is matched case-sensitively, as "
+              "the consumer compares it (key == 'text')",
+              construct="keyword-case", detail=pat)
+    f = repo.func("chameleon.zpt.program.MacroProgram._make_content_node")
+    cmp_ = [n for n in ast.walk(f.node) if isinstance(n, ast.Compare)
+            and src(n.left) == "key"]
+    rep.check(bool(cmp_) and all(
+        len(c.ops) == 1 and isinstance(c.ops[0], ast.Eq) and
+        isinstance(c.comparators[0], ast.Constant) and
+        c.comparators[0].value == "text" for c in cmp_), "R02.1",
+        f.qualname, "the escaping keyword is 'text': anything else is the "
+        "explicit structure opt-out", construct="keyword-compare",
+        where=L.where(f))
+
+
 def _content_total(repo, rep):
+    _keyword_case(repo, rep)
     from .c01 import content_node_total
     okc, detail = content_node_total(repo)
     rep.check(okc, "R02.1", "chameleon.zpt.program.MacroProgram."
@@ -256,6 +287,18 @@ def _routing(repo, rep):
               "non-escaping conversion (__convert)",
               construct="content-convert", where=wh,
               detail=L.conds_text(c[1]) if c else "no __convert call")
+    # ... whatever else is set on the node (a translated value is escaped
+    # like any other): the escape set is the only condition on the routing
+    for row, what in ((q, "escaping"), (c, "non-escaping")):
+        if row is None:
+            continue
+        others = [t for k, t in row[1] if k != "loop" and
+                  "char_escape" not in t]
+        rep.check(not others, "R02.2", site, "the %s conversion of content "
+                  "depends on the escape set only (not on translation or "
+                  "any other node field)" % what,
+                  construct="content-routing-only-escape:" + what, where=wh,
+                  detail="also conditioned on %s" % others)
     if q:
         qarg = q[3]["_Q"]
         rep.check(isinstance(qarg, ast.Constant) and qarg.value is None,
